@@ -252,6 +252,10 @@ class PDFResourceManager:
                 dfonts = list_value(spec.get("DescendantFonts", []))
                 assert dfonts
                 subspec = dict_value(dfonts[0]).copy()
+                if literal_name(subspec.get("Subtype")) == "Type0":
+                    # The descendant of a Type0 font is a CIDFont; another
+                    # Type0 font (e.g. the font itself) would recurse forever.
+                    raise PDFFontError("Descendant font is a Type0 font: %r" % spec)
                 for k in ("Encoding", "ToUnicode"):
                     if k in spec:
                         subspec[k] = resolve1(spec[k])
